@@ -482,6 +482,9 @@ class MailboxSet(MailboxSetInterface[MailboxData]):
         return '/'
 
     async def set_subscribed(self, name: str, subscribed: bool) -> None:
+        if '\r' in name or '\n' in name:
+            # the subscriptions file holds one name per line
+            raise NotSupportedError('Invalid mailbox name.')
         async with Subscriptions.with_write(self._path) as subs:
             subs.set(name, subscribed)
 
